@@ -44,6 +44,12 @@ def elementTyp : Ty → Option Ty
   | .list t => some t
   | _ => none
 
+/-- `specificity`: `?`, the element type of `[]` and an undetermined type say nothing -/
+def specificity : Ty → Nat
+  | .uninitialized | .unknown | .any => 0
+  | .list t => 1 + specificity t
+  | _ => 1
+
 def isBits : Ty → Bool
   | .bits _ | .uninitialized => true
   | _ => false
